@@ -49,6 +49,24 @@ JudgeBook(e) ==
   \cup Chk("x.book-answers", \A j \in 1..Len(e.probes) : MvSet(e.probes[j].moves) = Answers(e.probes[j].pos))
   \cup Chk("x.book-answer-duplicates", \A j \in 1..Len(e.probes) : Len(e.probes[j].moves) = Cardinality(MvSet(e.probes[j].moves)))
 
+\* info lines of the UCI driver for a scripted search (token lists): depth first, the score as centipawns
+\* or mate in moves, the node count when there is one, the line as coordinate moves
+Pos1(tk, w) == IF \E i \in 1..Len(tk) : tk[i] = w THEN CHOOSE i \in 1..Len(tk) : tk[i] = w /\ \A j \in 1..(i-1) : tk[j] # w ELSE 0
+JudgeInfoLine(tk, script) ==
+  LET di == Pos1(tk, "depth") si == Pos1(tk, "score") ni == Pos1(tk, "nodes") pi == Pos1(tk, "pv")
+      ents == { k \in 1..Len(script) : di > 0 /\ di < Len(tk) /\ ToString(script[k].depth) = tk[di+1] }
+  IN IF ents = {} THEN {"x.uci-info-depth-unknown"}
+     ELSE LET en == script[CHOOSE k \in ents : TRUE] IN
+            Chk("x.uci-info-shape", Len(tk) >= 5 /\ tk[1] = "info" /\ di = 2 /\ si = 4)
+       \cup Chk("x.uci-info-score", si > 0 /\ si + 2 <= Len(tk)
+                                    /\ IF en.t = "H" THEN tk[si+1] = "cp" /\ tk[si+2] = ToString(en.cp)
+                                       ELSE tk[si+1] = "mate" /\ tk[si+2] = ToString(UciMateMoves(en.t, en.m)))
+       \cup Chk("x.uci-info-nodes", IF en.nodes > 0 THEN ni > 0 /\ ni < Len(tk) /\ tk[ni+1] = ToString(en.nodes) ELSE ni = 0)
+       \cup Chk("x.uci-info-pv", IF en.pv = <<>> THEN pi = 0 ELSE pi > 0 /\ SubSeq(tk, pi + 1, Len(tk)) = en.pv)
+JudgeInfo(e) ==
+  Chk("x.uci-info-no-bestmove", e.answered)
+  \cup UNION { JudgeInfoLine(e.lines[i], e.script) : i \in 1..Len(e.lines) }
+
 Init == l = 1
 Next == /\ l <= Len(Tr)
         /\ LET e == Tr[l]
@@ -57,6 +75,7 @@ Next == /\ l <= Len(Tr)
                       [] e.op = "selection" -> JudgeSelection(e)
                       [] e.op = "wl" -> JudgeWriteLimited(e)
                       [] e.op = "bookline" -> JudgeBook(e)
+                      [] e.op = "uciinfo" -> JudgeInfo(e)
                       [] OTHER -> {}
            IN f # {} => PrintT("FAIL|" \o ToString(l) \o "|" \o ToString(f))
         /\ l' = l + 1
